@@ -893,12 +893,24 @@ class PteraTransformer(NodeTransformer):
                 # Leave the closure variable as it is (it may not even be
                 # set yet)
                 continue
-            new_body.extend(
-                self.make_interaction(
-                    target=fv,
-                    ann=None,
-                    value=ast.Name(id=fv, ctx=ast.Load()),
-                    orig=node,
+            # (it may not be set yet in the enclosing function)
+            new_body.append(
+                ast.Try(
+                    body=self.make_interaction(
+                        target=fv,
+                        ann=None,
+                        value=ast.Name(id=fv, ctx=ast.Load()),
+                        orig=node,
+                    ),
+                    handlers=[
+                        ast.ExceptHandler(
+                            type=ast.Name(id="NameError", ctx=ast.Load()),
+                            name=None,
+                            body=[ast.Pass()],
+                        )
+                    ],
+                    orelse=[],
+                    finalbody=[],
                 )
             )
 
